@@ -205,6 +205,11 @@ func (d *Object) UnmarshalJSON(data []byte) error {
 	if d.payload == nil {
 		return ErrUnknownSchema
 	}
+	if _, ok := d.payload.(*Object); ok {
+		// an object cannot contain itself, avoid infinite recursion
+		d.payload = nil
+		return ErrUnknownSchema
+	}
 	if err := json.Unmarshal(data, d.payload); err != nil {
 		return err
 	}
